@@ -131,6 +131,10 @@ def _dict_to_obj(tpm_type, dict_obj: dict[str, any], command_code=None):
 def _to_obj(tpm_type, value, command_code=None):
     """If value is dict, tpm_type is the type it should be converted to."""
     if isinstance(value, dict):
+        if not value and len(fields(tpm_type)) > 0:
+            # A structure event without child events is an absent part (union arm without payload,
+            # empty size-prefixed structure): the decoder represents those as None, too.
+            return None
         return _dict_to_obj(tpm_type, value, command_code=command_code)
     elif isinstance(value, list):
         return _list_to_obj(tpm_type, value)
